@@ -226,7 +226,8 @@ Lemma delete_node_references_inv st n : Inv st ->
   Inv st' /\
   (forall y r, In r (F st' y) <-> In r (F st y) /\ y <> n /\ snd r <> n) /\
   (forall y x, In x (R st' y) <-> In x (R st y) /\ y <> n /\ x <> n) /\
-  (fst (delete_node_references st n) = true <-> F st n <> [] \/ R st n <> []).
+  (fst (delete_node_references st n) = true <-> F st n <> [] \/ R st n <> []) /\
+  (forall y, F st' y = if y =? n then [] else filter (keep_tgt n) (F st y)).
 Proof.
   intros HI. destruct HI as [W1 W2 N1 N2 NS CV].
   unfold delete_node_references.
@@ -325,7 +326,21 @@ Proof.
     - apply filter_In in Hx. destruct Hx as [_ Hk]. unfold keep_id in Hk.
       rewrite Z.eqb_refl in Hk. discriminate.
     - assert (memZ y xs = true); [|congruence]. apply Hxs. exact Hx. }
-  split; [|split; [exact InF|split; [exact InR|]]].
+  assert (EF : forall y, F s2 y = if y =? n then [] else filter (keep_tgt n) (F st y)).
+  { intros y. rewrite HFs2, HF2.
+    assert (K : filter (keep_tgt n) (F s1 y) = if y =? n then [] else filter (keep_tgt n) (F st y)).
+    { rewrite HFs1, HF1. destruct (y =? n); [reflexivity|].
+      destruct (memZ y xs); [apply filter_idem|reflexivity]. }
+    destruct (memZ y l) eqn:Ml; [exact K|]. rewrite <- K. symmetry. apply filter_all.
+    intros r Hr. unfold keep_tgt. apply negb_true_iff, Z.eqb_neq. intros Hsn.
+    rewrite HFs1, HF1 in Hr.
+    destruct (y =? n) eqn:Eyn; [destruct Hr|]. apply Z.eqb_neq in Eyn.
+    assert (Hr0 : In r (F st y)).
+    { destruct (memZ y xs); [apply filter_In in Hr; apply Hr|exact Hr]. }
+    assert (memZ y l = true); [|congruence].
+    apply Hl; [exact Eyn|]. apply CV. exists (fst r). rewrite <- Hsn.
+    destruct r; exact Hr0. }
+  split; [|split; [exact InF|split; [exact InR|split; [|exact EF]]]].
   - constructor.
     + exact W1f.
     + exact W2f.
